@@ -17,11 +17,11 @@ import (
 
 // C05 — decoder construction is type-sound and decoding stays inside the destination.
 
-const c05Rule = "complete enumeration, every run, of the matrix schema type {null, boolean, int, long, float, double, bytes, string, fixed(0,1,3,4,8,16,40), record, enum, array, map, union} x " +
+const c05Rule = "complete enumeration, every run, of the matrix schema type {null, boolean, int, long, float, double, bytes, string, fixed(0,1,3,4,8,16,40), record, enum, array, map, union, date, timestamp-millis, timestamp-micros} x " +
 	"Go kind {bool, every signed/unsigned integer width, uintptr, float32/64, complex64/128, string, []byte, [N]byte (N in 0,1,3,4,8,16,40), slices, Go arrays, string- and int-keyed maps, struct, pointer, interface, chan, func, unsafe.Pointer, time.Time, null.*} x " +
-	"position {field, *field, **field, slice element, map value} x canary width k in 1..8; the cell is field F of struct{Pre [k]byte; F G; Post [k]byte} placed between two 64-byte guards in a reflect-allocated wrapper; " +
+	"position {field, *field, **field, slice element, pointer slice element, map value} x canary width k in 1..8; the cell is field F of struct{Pre [k]byte; F G; Post [k]byte} placed between two 64-byte guards in a reflect-allocated wrapper; " +
 	"per cell 6-10 in-range and out-of-range datums encoded by the reference encoder; evaluated in a worker subprocess; oracle: Schema.Codec returns an error, OR every decode leaves guards and Pre/Post byte-identical " +
-	"and either returns an error or leaves in F exactly the datum's value; non-trivial = codec built and a value with a non-zero bit pattern decoded next to a canary; distinct by (schema type, Go kind, position, k)"
+	"and either returns an error or leaves in F exactly the datum's value, every bool holding the byte 0 or 1 (also for boolean bytes other than 0/1 fed as raw bodies); non-trivial = codec built and a value with a non-zero bit pattern decoded next to a canary; distinct by (schema type, Go kind, position, k)"
 
 type c05Case struct {
 	X      ref.Schema    `json:"x"` // schema of the cell
@@ -30,6 +30,8 @@ type c05Case struct {
 	Pos    string        `json:"pos"` // field, ptr, ptrptr, elem, mapval
 	K      int           `json:"k"`
 	Datums []ref.Datum   `json:"datums"`
+	// Raw: extra record bodies given as bytes (boolean bytes other than 0/1)
+	Raw [][]byte `json:"raw,omitempty"`
 }
 
 type c05Result struct {
@@ -62,6 +64,10 @@ func (c c05Case) cellSchemaAndType() (ref.Schema, spec.TypeSpec) {
 	case "elem":
 		x = ref.Schema{Kind: "array", Items: &c.X}
 		g = spec.Slice(g)
+	case "elemptr":
+		// every element is allocated through the codec's New
+		x = ref.Schema{Kind: "array", Items: &c.X}
+		g = spec.Slice(spec.Ptr(g))
 	case "mapval":
 		x = ref.Schema{Kind: "map", Values: &c.X}
 		g = spec.Map(g)
@@ -80,6 +86,15 @@ func (c c05Case) wrapDatum(d ref.Datum) ref.Datum {
 	case "elem":
 		// three elements, so that an over-wide store into one element lands in its neighbour
 		d = ref.Datum{K: "array", Items: []ref.Datum{d, d, d}}
+	case "elemptr":
+		// different neighbours (the cell's other datums), so that a value written
+		// over a neighbouring allocation shows
+		items := []ref.Datum{d}
+		for i := 0; i < 4 && i < len(c.Datums); i++ {
+			items = append(items, c.Datums[(i*3+1)%len(c.Datums)])
+		}
+		items = append(items, d)
+		d = ref.Datum{K: "array", Items: items}
 	case "mapval":
 		d = ref.Datum{K: "map", Keys: []string{"a", "b"}, Vals: []ref.Datum{d, d}}
 	}
@@ -94,6 +109,9 @@ func pairKnown(x ref.Schema, g spec.TypeSpec) bool {
 	case "boolean":
 		return g.K == "bool" || g.K == "nullBool"
 	case "int", "long":
+		if g.K == "time" {
+			return x.LogicalType == "date" && x.Kind == "int" || x.Kind == "long"
+		}
 		switch g.K {
 		case "int", "int16", "int32", "int64", "nullInt":
 			return true
@@ -146,12 +164,26 @@ func runC05InWorker(c c05Case) (c05Result, error) {
 		{Name: "G0", Type: guard}, {Name: "S", Type: cellType}, {Name: "G1", Type: guard},
 	})
 	known := pairKnown(c.X, c.G)
-	for di, d := range c.Datums {
+	type input struct {
+		d    ref.Datum
+		rec  ref.Datum
+		body []byte
+		raw  bool
+	}
+	var inputs []input
+	for _, d := range c.Datums {
 		rec := c.wrapDatum(d)
 		body, err := ref.Encode(s, rec, nil)
 		if err != nil {
 			return res, fmt.Errorf("VERIF-INCONCLUSIVE harness: %v", err)
 		}
+		inputs = append(inputs, input{d: d, rec: rec, body: body})
+	}
+	for _, rb := range c.Raw {
+		inputs = append(inputs, input{d: ref.Datum{K: "bytes", S: rb}, body: rb, raw: true})
+	}
+	for di, in := range inputs {
+		d, rec, body := in.d, in.rec, in.body
 		w := reflect.New(wrapType).Elem()
 		fill := func(v reflect.Value) {
 			for i := 0; i < v.Len(); i++ {
@@ -186,6 +218,13 @@ func runC05InWorker(c c05Case) (c05Result, error) {
 			continue
 		}
 		res.Decoded++
+		if err := validRepr(cell.Field(1), "F"); err != nil {
+			return res, fmt.Errorf("datum %d (%v): decode of %s into %s (%s) left a value that is not a value of the field's own type: %v",
+				di, briefDatum(d), c.X.Kind, c.G.GoString(), c.Pos, err)
+		}
+		if in.raw {
+			continue
+		}
 		if known {
 			if err := agree(s, rec, t, false, cell, dirRead, "cell"); err != nil {
 				return res, fmt.Errorf("datum %d (%v): decode of %s into %s (%s) returned no error but F does not hold the datum's value: %v",
@@ -194,6 +233,69 @@ func runC05InWorker(c c05Case) (c05Result, error) {
 		}
 	}
 	return res, nil
+}
+
+// validRepr checks that every bool reachable from v holds a legal bool
+// representation (the byte 0 or 1): anything else is not a value of type bool.
+func validRepr(v reflect.Value, path string) error {
+	switch v.Kind() {
+	case reflect.Bool:
+		if v.CanAddr() {
+			if b := *(*byte)(v.Addr().UnsafePointer()); b > 1 {
+				return fmt.Errorf("%s: bool field holds the byte %#02x", path, b)
+			}
+		}
+	case reflect.Ptr:
+		if !v.IsNil() {
+			return validRepr(v.Elem(), path)
+		}
+	case reflect.Slice, reflect.Array:
+		if v.Type().Elem().Kind() == reflect.Uint8 {
+			return nil
+		}
+		for i := 0; i < v.Len(); i++ {
+			if err := validRepr(v.Index(i), fmt.Sprintf("%s[%d]", path, i)); err != nil {
+				return err
+			}
+		}
+	case reflect.Struct:
+		for i := 0; i < v.NumField(); i++ {
+			if v.Type().Field(i).IsExported() {
+				if err := validRepr(v.Field(i), path+"."+v.Type().Field(i).Name); err != nil {
+					return err
+				}
+			}
+		}
+	case reflect.Map:
+		for _, k := range v.MapKeys() {
+			e := reflect.New(v.Type().Elem()).Elem()
+			e.Set(v.MapIndex(k))
+			if err := validRepr(e, path+"{"+k.String()+"}"); err != nil {
+				return err
+			}
+		}
+	}
+	return nil
+}
+
+// rawBodies: record bodies for the cell that no conformant writer produces but
+// that a decoder may meet: boolean bytes other than 0 and 1.
+func (c c05Case) rawBodies() [][]byte {
+	if c.X.Kind != "boolean" {
+		return nil
+	}
+	var out [][]byte
+	for _, b := range []byte{2, 0x80, 0xff} {
+		switch c.Pos {
+		case "elem", "elemptr":
+			out = append(out, []byte{4, b, 1, 0}) // array of two items, end
+		case "mapval":
+			out = append(out, []byte{2, 2, 'k', b, 0})
+		default:
+			out = append(out, []byte{b})
+		}
+	}
+	return out
 }
 
 func briefDatum(d ref.Datum) string {
@@ -242,6 +344,12 @@ func c05Schemas() []ref.Schema {
 	for _, n := range []int{0, 1, 3, 4, 8, 16, 40} {
 		out = append(out, ref.Schema{Kind: "fixed", Name: fmt.Sprintf("fx%d", n), Size: n})
 	}
+	out = append(out,
+		ref.Schema{Kind: "int", LogicalType: "date", ObjectForm: true},
+		ref.Schema{Kind: "long", LogicalType: "timestamp-millis", ObjectForm: true},
+		ref.Schema{Kind: "long", LogicalType: "timestamp-micros", ObjectForm: true},
+		ref.Nullable(ref.Schema{Kind: "int", LogicalType: "date", ObjectForm: true}),
+	)
 	return out
 }
 
@@ -278,10 +386,22 @@ func c05Datums(x ref.Schema, rot int) []ref.Datum {
 	case "boolean":
 		out = []ref.Datum{ref.Bool(true), ref.Bool(false)}
 	case "int":
+		if x.LogicalType == "date" {
+			for _, v := range []int64{0, 1, -1, 573, 19000, -25567, 106751, 365, 20000, 12345} {
+				out = append(out, ref.Datum{K: "int", I: v})
+			}
+			break
+		}
 		for _, v := range []int64{0, 1, -1, 127, 128, -129, 32767, 32768, -32769, 0x01020304, math.MaxInt32, math.MinInt32, 0x7a6b5c4d} {
 			out = append(out, ref.Datum{K: "int", I: v})
 		}
 	case "long", "enum":
+		if x.LogicalType != "" {
+			for _, v := range []int64{0, 1, -1, 1700000000000, 86400000, -86400000, 0x0102030405, 951782400123, 4102444800000, 7} {
+				out = append(out, ref.Datum{K: "long", I: v})
+			}
+			break
+		}
 		for _, v := range []int64{0, 1, -1, 127, 128, 32767, 32768, -32769, math.MaxInt32, math.MaxInt32 + 1, math.MinInt32 - 1, 0x0102030405060708, math.MaxInt64, math.MinInt64, 1 << 40} {
 			out = append(out, ref.Datum{K: x.Kind, I: v})
 		}
@@ -354,7 +474,7 @@ func TestC05(t *testing.T) {
 		t.Fatalf("VERIF-INCONCLUSIVE cannot start worker: %v", err)
 	}
 	defer w.Close()
-	positions := []string{"field", "ptr", "ptrptr", "elem", "mapval"}
+	positions := []string{"field", "ptr", "ptrptr", "elem", "elemptr", "mapval"}
 	ks := []int{1, 2, 3, 4, 5, 6, 7, 8}
 	cell := 0
 	for _, x := range c05Schemas() {
@@ -374,6 +494,7 @@ func TestC05(t *testing.T) {
 				}
 				for _, k := range widths {
 					c := c05Case{X: x, G: g, GoType: g.GoString(), Pos: pos, K: k, Datums: c05Datums(x, int(seedVal()))}
+					c.Raw = c.rawBodies()
 					res, err := c05Verdict(w, c)
 					nt := res.Built && res.Decoded > 0
 					labels := []string{"pos_" + pos}
